@@ -365,6 +365,9 @@ func AuthorizeTokenExchangeClient(ctx context.Context, clientID, clientSecret st
 	if err != nil {
 		return nil, oidc.ErrInvalidClient().WithParent(err)
 	}
+	if !ValidateGrantType(client, oidc.GrantTypeTokenExchange) {
+		return nil, oidc.ErrUnauthorizedClient()
+	}
 
 	return client, nil
 }
